@@ -34,6 +34,10 @@ type Term struct {
 	Bound []*Term
 	key   string
 	id    int
+
+	hasFree  int
+	freeDone bool
+	free     map[*Term]bool
 }
 
 // FuncDecl is an uninterpreted function / constant declaration.
@@ -486,16 +490,53 @@ func (c *Ctx) NameTerm(hint string, t *Term) *Term {
 	return k
 }
 
+// HasBVar reports whether t mentions a bound variable that is free in t (closed quantified
+// sub-formulas do not count).
 func (t *Term) HasBVar() bool {
-	if t.Op == "bvar" {
-		return true
-	}
-	for _, a := range t.Args {
-		if a.HasBVar() {
-			return true
+	if t.hasFree == 0 {
+		t.hasFree = 1
+		if len(t.freeBVars()) > 0 {
+			t.hasFree = 2
 		}
 	}
-	return false
+	return t.hasFree == 2
+}
+
+// freeBVars returns the bound variables occurring free in t (memoised).
+func (t *Term) freeBVars() map[*Term]bool {
+	if t.freeDone {
+		return t.free
+	}
+	t.freeDone = true
+	switch {
+	case t.Op == "bvar":
+		t.free = map[*Term]bool{t: true}
+	case len(t.Args) == 0:
+		t.free = nil
+	default:
+		var acc map[*Term]bool
+		for _, a := range t.Args {
+			fa := a.freeBVars()
+			if len(fa) == 0 {
+				continue
+			}
+			if acc == nil {
+				acc = map[*Term]bool{}
+			}
+			for v := range fa {
+				acc[v] = true
+			}
+		}
+		if len(t.Bound) > 0 && acc != nil {
+			for _, b := range t.Bound {
+				delete(acc, b)
+			}
+		}
+		if len(acc) > 0 {
+			t.free = acc
+		}
+	}
+	return t.free
 }
 
 // HasQuant reports whether the term contains a quantifier.
